@@ -107,6 +107,27 @@ def main():
     print("\nsummary:")
     for r in out:
         print(f"  {r['id']:8s} {r['status']:22s} {', '.join(r.get('caught_by', [])[:3])}")
+    write_readme()
+
+
+def write_readme():
+    import glob
+    rows = []
+    for f in sorted(glob.glob(os.path.join(V, "seeded", "*", "meta.json"))):
+        m = json.load(open(f))
+        first = (m.get("needs_to_manifest") or "").strip().splitlines()
+        title = next((l.strip("# ").strip() for l in first if l.strip()), "")
+        cr = m.get("check_result", {})
+        rows.append((m["id"], m["breaks_property"], title[:110], "caught" if cr.get("exit") == 1 else f"MISSED (exit {cr.get('exit')})",
+                     "; ".join(o.split("/", 1)[1] for o in cr.get("caught_by", [])[:3])))
+    with open(os.path.join(V, "seeded", "README.md"), "w") as f:
+        f.write("# Independently seeded property-breaking changes\n\n"
+                "Each directory holds `patch.diff` (never applied to /repo), `demo.py` (fails with the change, passes without), the author's "
+                "`notes.md` and `meta.json` (what it needs to manifest, what was re-run here, which obligations of `./check <id> --tier quick` "
+                "report it).  Produced by fresh sub-agents that saw only the property text and a scratch worktree.\n\n"
+                "| id | property | change | quick check | reported by |\n|---|---|---|---|---|\n")
+        for r in rows:
+            f.write("| " + " | ".join(r) + " |\n")
 
 
 if __name__ == "__main__":
